@@ -36,7 +36,7 @@ type Obligation struct {
 }
 
 var safetyKinds = map[string]bool{"index": true, "slice": true, "divzero": true, "assert": true, "nofatal": true, "nopanic": true, "makelen": true,
-	"slice-alias": true, "lock-free": true, "unlock-held": true, "lock-balance": true, "block-under-lock": true, "nil": true, "overflow": true, "guarded": true, "devirt": true}
+	"slice-alias": true, "lock-free": true, "unlock-held": true, "lock-balance": true, "wg-balance": true, "block-under-lock": true, "nil": true, "overflow": true, "guarded": true, "devirt": true}
 
 func (e *Engine) oblige(fr *Frame, st *State, kind, detail string, site int, goal *Term, node ast.Node, cl *Clause, descr string) {
 	if st.Infeasible() {
@@ -328,6 +328,12 @@ func (fr *Frame) checkFrame(st *State, fc *FuncContract, nret int) {
 	if fc.Options["noframe"] != "" {
 		return
 	}
+	if fc.Options["trustframe"] != "" {
+		// `option trustframe`: the `modifies` list stays what callers rely on, but it is not checked against the
+		// body (which calls un-framed functions); listed as an assumption
+		e.assumed["frame (`modifies`) of "+shortKey(fr.top.fn.Key)+" (option trustframe)"] = true
+		return
+	}
 	var keys []string
 	for k := range st.heap {
 		keys = append(keys, k)
@@ -410,7 +416,7 @@ func (fr *Frame) frameAllowed() (map[string][]*Term, map[string]bool) {
 func (fr *Frame) frameFact(st *State, k string) *Term {
 	e := fr.e
 	entry := fr.top.entry
-	if fr.top.fc != nil && fr.top.fc.Options["noframe"] != "" {
+	if fr.top.fc != nil && (fr.top.fc.Options["noframe"] != "" || fr.top.fc.Options["trustframe"] != "") {
 		return nil
 	}
 	allowed, whole := fr.frameAllowed()
